@@ -505,7 +505,8 @@ def read_result(m, real_pid=None, exact=True):
                      'zonetype': b.zonetype, 'frac': F(b.frac), 'fl_area': F(b.fl_area),
                      'vals': tuple(F(x) for x in vals), 'raw': (b.frac,) + vals})
     return {'err': None, 'entries': ents,
-            'sch': [(x.bldtype, x.builtera, x.zonetype) for x in m.Sch],
+            'sch': [(getattr(x, 'bldtype', repr(type(x))), getattr(x, 'builtera', None), getattr(x, 'zonetype', None))
+                    for x in m.Sch],   # a changed tree may pair an archetype with no schedule at all (None): a mismatch, not a crash
             'totals': (F(m.r_glaze_total), F(m.SHGC_total), F(m.alb_wall_total)),
             'raw_totals': (m.r_glaze_total, m.SHGC_total, m.alb_wall_total)}
 
